@@ -1,5 +1,6 @@
 import Sop.Model.RegistryMap
 import Sop.Lemmas.RegistryRmw
+import Sop.Lemmas.RegistrySeg
 /-!
 # C21 — the on-disk registry behaves as a map from id to handle
 
@@ -729,6 +730,131 @@ theorem C21_slot_lock_registry_lost_update :
       get { md := 1 } (run true).st (0, 7) = some ⟨(0, 7), 2⟩ ∧ get { md := 1 } (run true).st (0, 5) = some ⟨(0, 5), 10⟩) ∧
     (result (run false) 0 = some .ok ∧ result (run false) 1 = some .ok ∧
       get { md := 1 } (run false).st (0, 7) = some ⟨(0, 7), 20⟩ ∧ get { md := 1 } (run false).st (0, 5) = some ⟨(0, 5), 10⟩) := by
+  decide +kernel
+
+
+/-! ## several writers: a segment file that does not exist yet (`setupNewFile`)
+
+`findOneFileRegion` decides "segment file missing" with an `os.Stat`, without a lock; `setupNewFile` creates the file
+later, under the preallocation lock — possibly after another writer created it and wrote a handle into it.
+`Sop.RegistryMW.Rmw.Seg`: any number of writers of one block of a segment file that is missing at the start; one
+transition per call (existence check; `DualLock` / `Open(O_CREATE)+Truncate` / `Unlock` of `setupNewFile`; lock / read /
+write / unlock of the block). -/
+
+/-- Full-strength statement for the way the creating open treats a file that is already there (`trunc = false`: its
+content is kept — the code; `true`: `O_TRUNC`): whatever the number of writers, their (pairwise different) slots, their
+values and the schedule, at EVERY point of the schedule the slot of every writer that has returned holds its value. -/
+def Statement_C21_create (trunc : Bool) (R : Type) : Prop :=
+  ∀ (prog : List (Nat × Option R)) (n : Nat) (sch : List Nat),
+    (∀ (i j : Nat) (pi pj : Nat × Option R), prog[i]? = some pi → prog[j]? = some pj → i ≠ j → pi.1 ≠ pj.1) →
+    (∀ p ∈ prog, p.1 < n) →
+    let s := Rmw.Seg.run trunc 1 n (Rmw.Seg.init prog n) sch
+    ∀ (i : Nat) (p : Nat × Option R) (w : Rmw.Wr Nat R), prog[i]? = some p → s.rs.ws[i]? = some w → w.pc = .done →
+      s.rs.blk[p.1]? = some p.2
+
+/-- the invariant along every schedule of creators and writers -/
+theorem C21_create_inv {R : Type} (prog : List (Nat × Option R)) (n : Nat) (sch : List Nat) :
+    Rmw.SInv (Rmw.Seg.init prog n).rs.ws (List.replicate n none) 0 (Rmw.Seg.run false 1 n (Rmw.Seg.init prog n) sch) := by
+  apply Rmw.sinv_run (by decide)
+  refine ⟨?_, fun _ => rfl, ?_⟩
+  · apply Rmw.inv_init _ _ _ _ rfl
+    · intro w hw; simp only [Rmw.Seg.init, List.mem_map] at hw; obtain ⟨p, _, rfl⟩ := hw; rfl
+    · intro w hw; simp only [Rmw.Seg.init, List.mem_map] at hw; obtain ⟨p, _, rfl⟩ := hw; rfl
+  · intro i x hx hn
+    simp only [Rmw.Seg.init, List.getElem?_map] at hx
+    cases hp : prog[i]? with
+    | none => simp [hp] at hx
+    | some p => simp [hp] at hx; subst hx; simp [Rmw.needsFile] at hn
+
+/-- creating a segment file that another writer created in the meantime, with an open that keeps its content, never
+loses an acknowledged write: every returned writer's value stays in its slot, at every point of every interleaving of
+creators and writers -/
+theorem C21_create_keeps_acknowledged {R : Type} : Statement_C21_create false R := by
+  intro prog n sch hdist hlt s i p w hp hw hd
+  have hi := (C21_create_inv prog n sch).inv
+  have hw0 : (Rmw.Seg.init prog n).rs.ws[i]? = some { key := 0, slot := p.1, val := p.2 } := by
+    simp [Rmw.Seg.init, List.getElem?_map, hp]
+  obtain ⟨w0, hw0', hs0, hv0, _⟩ := hi.prog.2 i w hw
+  rw [hw0] at hw0'; cases hw0'
+  have hs : w.slot = p.1 := hs0
+  have hv : w.val = p.2 := hv0
+  rw [← hs, ← hv]
+  apply Rmw.done_slot_kept hi i w hw hd
+  · rw [hs]; simpa using hlt p (List.mem_of_getElem? hp)
+  · intro j wj hne hwj
+    simp only [Rmw.Seg.init, List.getElem?_map] at hwj
+    cases hpj : prog[j]? with
+    | none => simp [hpj] at hwj
+    | some pj =>
+      simp [hpj] at hwj; subst hwj
+      rw [hs]
+      exact hdist j i pj p hpj hp hne
+
+/-- the truncating open: writer 0 decides "missing"; writer 1 decides "missing", creates the file, writes slot 1 and
+returns; writer 0 takes the preallocation lock and opens with `O_TRUNC`: writer 1's acknowledged write is gone -/
+def truncWitnessSchedule : List Nat := [0] ++ List.replicate 8 1 ++ [0, 0]
+
+theorem C21_create_trunc_lost_write :
+    let s := Rmw.Seg.run true 1 2 (Rmw.Seg.init [(0, some 7), (1, some 8)] 2) truncWitnessSchedule
+    (s.rs.ws[1]?.map (·.pc)) = some .done ∧ s.rs.blk = [none, none] := by
+  decide +kernel
+
+theorem C21_create_trunc_counterexample : ¬ Statement_C21_create true Nat := by
+  intro h
+  have hdist : ∀ (i j : Nat) (pi pj : Nat × Option Nat), [(0, some 7), (1, some 8)][i]? = some pi →
+      [(0, some 7), (1, some 8)][j]? = some pj → i ≠ j → pi.1 ≠ pj.1 := by
+    intro i j pi pj hi hj hne
+    match i, j with
+    | 0, 0 => exact absurd rfl hne
+    | 1, 1 => exact absurd rfl hne
+    | 0, 1 => simp at hi hj; subst hi hj; decide
+    | 1, 0 => simp at hi hj; subst hi hj; decide
+    | 0, j + 2 => simp at hj
+    | 1, j + 2 => simp at hj
+    | i + 2, _ => simp at hi
+  have hlost := C21_create_trunc_lost_write
+  simp only at hlost
+  cases hw : (Rmw.Seg.run true 1 2 (Rmw.Seg.init [(0, some 7), (1, some 8)] 2) truncWitnessSchedule).rs.ws[1]? with
+  | none => rw [hw] at hlost; simp at hlost
+  | some w =>
+    have hd : w.pc = .done := by rw [hw] at hlost; simpa using hlost.1
+    have := h [(0, some 7), (1, some 8)] 2 truncWitnessSchedule hdist (by decide) 1 (1, some 8) w (by decide) hw hd
+    rw [hlost.2] at this
+    simp at this
+
+/-- the same schedule with the open of the code: both writes are there in the end -/
+example : (Rmw.Seg.run false 1 2 (Rmw.Seg.init [(0, some 7), (1, some 8)] 2) (truncWitnessSchedule ++ [0, 0, 0, 0, 0])).rs.blk
+    = [some 7, some 8] := by decide +kernel
+
+/-- whole `Add` calls on the registry model (what the driver runs against the code; the harness replays this history
+first): no segment file yet, ids `0:5` and `0:7`; writer 0 is parked in front of the preallocation lock while writer 1 runs
+whole. With `O_TRUNC` writer 1's acknowledged id is not found afterwards; with the open of the code both are. -/
+def createWitnessSchedule : List Nat := [0] ++ List.replicate 9 1 ++ List.replicate 8 0
+
+theorem C21_create_race_first_segment :
+    let run := fun (trunc : Bool) =>
+      let mc : MCfg := { c := { md := 1 }, trunc }
+      RegistryMW.run mc (spawn mc (spawn mc { st := (St.init : St Nat) } .add ⟨(0, 5), 1⟩) .add ⟨(0, 7), 2⟩) createWitnessSchedule
+    (result (run true) 0 = some .ok ∧ result (run true) 1 = some .ok ∧
+      get { md := 1 } (run true).st (0, 7) = none ∧ get { md := 1 } (run true).st (0, 5) = some ⟨(0, 5), 1⟩) ∧
+    (result (run false) 0 = some .ok ∧ result (run false) 1 = some .ok ∧
+      get { md := 1 } (run false).st (0, 7) = some ⟨(0, 7), 2⟩ ∧ get { md := 1 } (run false).st (0, 5) = some ⟨(0, 5), 1⟩) := by
+  decide +kernel
+
+/-- block 0 of the only segment file is full: ids `0:0 … 0:65`, each in its ideal slot (the state after sixty-six
+sequential adds: the harness case that replays this witness makes them on the code and on the model, and compares the layout) -/
+def fullBlockSt : St Nat := { nseg := 1, cells := ((List.range 66).map fun k => some ⟨(0, k), k⟩).toArray }
+
+/-- overflow: both new ids (`0:333`, ideal slot 3; `0:471`, ideal slot 9) need segment file 2, which is missing. Writer 0
+searches segment file 1, decides "file 2 missing", is parked; writer 1 runs whole; writer 0 creates file 2 with `O_TRUNC`:
+writer 1's acknowledged id is not found; segment file 1 is untouched. -/
+def overflowWitnessSchedule : List Nat := [0, 0] ++ List.replicate 10 1 ++ List.replicate 8 0
+
+theorem C21_create_race_overflow_segment :
+    let mc : MCfg := { c := { md := 1 }, trunc := true }
+    let s := RegistryMW.run mc (spawn mc (spawn mc { st := fullBlockSt } .add ⟨(0, 333), 1⟩) .add ⟨(0, 471), 2⟩) overflowWitnessSchedule
+    result s 0 = some .ok ∧ result s 1 = some .ok ∧ get { md := 1 } s.st (0, 471) = none ∧
+      get { md := 1 } s.st (0, 333) = some ⟨(0, 333), 1⟩ ∧ get { md := 1 } s.st (0, 65) = some ⟨(0, 65), 65⟩ := by
   decide +kernel
 
 end Sop.C21
